@@ -20,6 +20,8 @@ pub trait Machine {
 }
 
 pub struct BfsStats {
+    /// every canonical key found (for cross-checks against an independent enumeration of the reference model)
+    pub keys: Vec<Vec<u8>>,
     pub states: u64,
     pub transitions: u64,
     pub depth_completed: usize,
@@ -29,7 +31,7 @@ pub struct BfsStats {
 }
 
 pub fn bfs<M: Machine>(m: &M, rep: &mut Report, max_depth: usize, max_states: usize, ctx_cap: &dyn Fn() -> bool) -> BfsStats {
-    let mut st = BfsStats { states: 0, transitions: 0, depth_completed: 0, dedup_hits: 0, pruned: 0, capped: false };
+    let mut st = BfsStats { keys: vec![], states: 0, transitions: 0, depth_completed: 0, dedup_hits: 0, pruned: 0, capped: false };
     let mut seen: HashMap<Vec<u8>, Vec<M::Act>> = HashMap::new();
     let mut classes: HashMap<Vec<u8>, (Vec<u8>, Vec<M::Act>)> = HashMap::new();
     let mut frontier: Vec<Vec<M::Act>> = vec![];
@@ -114,5 +116,6 @@ pub fn bfs<M: Machine>(m: &M, rep: &mut Report, max_depth: usize, max_states: us
         frontier = next;
     }
     rep.states += st.states;
+    st.keys = seen.into_keys().collect();
     st
 }
